@@ -51,6 +51,37 @@ impl UnlockableFile for File {
     }
 }
 
+/**
+Check that `path` still names the file that `locked_file` holds a lock on.
+
+A lock file can be unlinked (e.g. by `DB::destroy_database`) between the moment it was opened and the
+moment the lock on it was granted. A lock on a file that has lost its name excludes nobody because
+the next caller creates and locks a fresh file at the same path, so such a lock must be refused.
+*/
+#[cfg(target_family = "unix")]
+fn ensure_lock_file_is_current(locked_file: &File, path: &Path) -> io::Result<()> {
+    use std::os::unix::fs::MetadataExt;
+
+    let locked_metadata = locked_file.metadata()?;
+    match fs::metadata(path) {
+        Ok(path_metadata)
+            if path_metadata.dev() == locked_metadata.dev()
+                && path_metadata.ino() == locked_metadata.ino() =>
+        {
+            Ok(())
+        }
+        _ => Err(io::Error::new(
+            io::ErrorKind::Other,
+            format!("The lock file at {path:?} was removed or replaced while it was being locked."),
+        )),
+    }
+}
+
+#[cfg(not(target_family = "unix"))]
+fn ensure_lock_file_is_current(_locked_file: &File, _path: &Path) -> io::Result<()> {
+    Ok(())
+}
+
 /// File system implementation that delegates I/O to the operating system.
 pub struct OsFileSystem {}
 
@@ -149,6 +180,7 @@ impl FileSystem for OsFileSystem {
             .truncate(true)
             .open(path)?;
         file.try_lock_exclusive()?;
+        ensure_lock_file_is_current(&file, path)?;
 
         Ok(FileLock::new(Box::new(file)))
     }
@@ -311,6 +343,7 @@ impl FileSystem for TmpFileSystem {
             .truncate(true)
             .open(self.get_rooted_path(path))?;
         file.try_lock_exclusive()?;
+        ensure_lock_file_is_current(&file, &self.get_rooted_path(path))?;
 
         Ok(FileLock::new(Box::new(file)))
     }
